@@ -1,1 +1,2 @@
 import KiraModel.Props.C14_a
+import KiraModel.Props.C14_b
